@@ -812,6 +812,7 @@ def judge_tzhistory(case, rec: Recorder | None = None) -> list[Disc]:
     ops = [(op, f'$a {op} $b') for op in VAL_OPS] + [(sym, f'$a {sym} $b') for sym in GEN_OPS]
     toks = {expr: _parser(mode).parse(expr) for _, expr in ops}
     n = judged = 0
+    mutated = False
     for step, tz in enumerate(tzs):
         tzm = TZ_MIN[tz]
         for op, expr in ops:
@@ -832,10 +833,10 @@ def judge_tzhistory(case, rec: Recorder | None = None) -> list[Disc]:
             _judge_outcome({ref[1]}, obs, 'tzhistory', typ, ('first-step' if step == 0 else 'later-step') + '/' + op,
                            f'{mode} step {step} tz={tz} after {tzs[:step]} {expr} a={a[1]} b={b[1]}', discs)
         for name, o, s0 in (('a', oa, sa0), ('b', ob, sb0)):
-            if str(o) != s0:
+            if not mutated and str(o) != s0:     # reported once; the history goes on with the caller's objects as they are
                 discs.append(Disc(f'C07/tzhistory/{typ}/caller-object-mutated/step', s0, str(o),
                                   f'{mode} ${name} after step {step} tz={tz}'))
-                return discs
+                mutated = True
     if rec is not None:
         naive = sum(1 for x in (a, b) if C.value(x)[1][1] is None)
         classes = ['tzhistory:case', f'tzhistory:type-{typ}'] + (['tzhistory:naive-vs-aware'] if naive == 1 else []) + \
